@@ -9,6 +9,7 @@
     goroutine eventually runs is Go's scheduler (DESIGN.md section 11). *)
 From Coq Require Import List NArith Bool String Arith.
 From Verif Require Import Sni.SchedSkel Sni.Shutdown Sni.ShutdownProofs Sni.ShutdownCfg Sni.ShutdownGen Gen.TransportSkel.
+From Verif Require Import Sni.ShutdownEndpoint Sni.ShutdownEndpointProofs.
 Import ListNotations.
 Local Open Scope N_scope.
 
@@ -32,12 +33,12 @@ Print Assumptions C04_enabled_has_step.
 (** Bounded: along ANY execution from a state with serveDone closed, however
     the other threads are scheduled, a caller is at every point finished or
     enabled, and it has returned -- and closeAll has closed the front
-    connection -- after at most 4 steps of its own. *)
+    connection -- after at most 5 steps of its own. *)
 Theorem C04_calls_return_bounded : forall acts s s' c x,
   serve s = SDone -> exec gen_cfg s acts = Some s' -> getc c (callers s) = Some x ->
   exists x', getc c (callers s') = Some x' /\
     (finished x' = true \/ caller_enabled gen_cfg s' c = true) /\
-    (4 <= count_own c acts -> finished x' = true)%nat.
+    (5 <= ShutdownProofs.count_own c acts -> finished x' = true)%nat.
 Proof. exact (fun acts s s' c x => calls_return_bounded gen_cfg gen_cfg_guarded acts s s' c x). Qed.
 Print Assumptions C04_calls_return_bounded.
 
@@ -110,7 +111,7 @@ Theorem C04_accept_close_return : forall closed,
   (closed "p.serveDone"%string = true -> select_ready closed (first_point "Endpoint.Close") = true) /\
   (closed "timer.C"%string = true -> select_ready closed (first_point "Endpoint.sendAccept") = true) /\
   (closed "p.closed"%string = true -> select_ready closed (first_point "Endpoint.sendAccept") = true) /\
-  (closed "b.closed"%string = true -> select_ready closed (first_point "connMailBox.receive") = true) /\
+  (closed "b.closed"%string = true -> select_ready closed (last_point "connMailBox.receive") = true) /\
   (closed "tr.serveDone"%string = true -> select_ready closed (first_point "transport.shutdown") = true).
 Proof.
   intros closed.
@@ -125,6 +126,57 @@ Proof.
   exact (closed_arm_ready closed _ _ A10).
 Qed.
 Print Assumptions C04_accept_close_return.
+
+(** ** The endpoint side as threads (Sni/ShutdownEndpoint.v, arms read off the source) *)
+
+(** Accept returns once the endpoint's serve loop has ended or the endpoint
+    is closed. *)
+Theorem C04_endpoint_accept_exits : forall s t x,
+  gete t (ethreads s) = Some x -> e_kind x = KAccept -> e_pc x = ESelect ->
+  sdone s = true \/ eclosed s = true -> eenabled gen_ecfg s t = true.
+Proof. exact (accept_exits gen_ecfg gen_ecfg_guarded). Qed.
+Print Assumptions C04_endpoint_accept_exits.
+
+(** Close's graceful wait ends with the tunnel or with its timer; sendAccept
+    with the endpoint being closed or with its timer; and the timer of a
+    waiting Close / sendAccept can always fire, after which it is enabled. *)
+Theorem C04_endpoint_close_exits : forall s t x,
+  gete t (ethreads s) = Some x -> e_kind x = KClose -> e_pc x = ESelect ->
+  sdone s = true \/ e_timer x = true -> eenabled gen_ecfg s t = true.
+Proof. exact (close_exits gen_ecfg gen_ecfg_guarded). Qed.
+Print Assumptions C04_endpoint_close_exits.
+
+Theorem C04_endpoint_send_exits : forall s t x,
+  gete t (ethreads s) = Some x -> e_kind x = KSend -> e_pc x = ESelect ->
+  eclosed s = true \/ e_timer x = true -> eenabled gen_ecfg s t = true.
+Proof. exact (send_exits gen_ecfg gen_ecfg_guarded). Qed.
+Print Assumptions C04_endpoint_send_exits.
+
+Theorem C04_endpoint_timer_fires : forall s t x,
+  gete t (ethreads s) = Some x -> e_kind x <> KAccept -> e_pc x = ESelect ->
+  exists s', estep gen_ecfg s (ETimer t) = Some s' /\ eenabled gen_ecfg s' t = true.
+Proof. exact (timer_fires_then_enabled gen_ecfg gen_ecfg_guarded). Qed.
+Print Assumptions C04_endpoint_timer_fires.
+
+(** Every thread of the endpoint side has an exit once the tunnel is gone:
+    it is enabled, or its own timer makes it so, or it waits (sync.Once) for
+    another Close that itself has an exit. *)
+Theorem C04_endpoint_threads_exit : forall s t x,
+  ereachable gen_ecfg s -> sdone s = true ->
+  gete t (ethreads s) = Some x -> efinished x = false ->
+  can_exit gen_ecfg s t \/
+  (e_pc x = EOnceWait /\ exists r, eonce s = ORunning r /\ r <> t /\ can_exit gen_ecfg s r).
+Proof. exact (endpoint_threads_exit gen_ecfg gen_ecfg_guarded). Qed.
+Print Assumptions C04_endpoint_threads_exit.
+
+(** ... and it returns after at most 4 steps of its own, however the others
+    are scheduled. *)
+Theorem C04_endpoint_bounded_own_steps : forall acts s s' t x,
+  eexec gen_ecfg s acts = Some s' -> gete t (ethreads s) = Some x ->
+  exists x', gete t (ethreads s') = Some x' /\
+    (emeasure x' + ShutdownEndpointProofs.count_own t acts <= emeasure x)%nat.
+Proof. exact (ShutdownEndpointProofs.bounded_own_steps gen_ecfg). Qed.
+Print Assumptions C04_endpoint_bounded_own_steps.
 
 (** The pinned tree's configuration, kept as a counter-model: serve exits,
     closeAll's tunnel.Close enqueues its call and is never enabled again, so
@@ -144,6 +196,18 @@ Theorem C04_legacy_reader_stranded :
 Proof. exact legacy_reader_stranded. Qed.
 Print Assumptions C04_legacy_reader_stranded.
 
+(** Side modes: in the pinned tree's shape a side dial whose call has
+    succeeded waits for ever for its side connection once the control
+    connection is gone (unless the connection still arrives); with the
+    current source it is covered by [C04_no_stranded_caller] (pc [CBox]). *)
+Theorem C04_legacy_side_dial_stranded :
+  exists s, reachable legacy_cfg s /\ stuck_box s 1 /\
+    caller_enabled legacy_cfg s 1 = false /\
+    forall a s', a <> ADeliver 1 -> step legacy_cfg s a = Some s' ->
+      stuck_box s' 1 /\ caller_enabled legacy_cfg s' 1 = false.
+Proof. exact legacy_side_dial_stranded. Qed.
+Print Assumptions C04_legacy_side_dial_stranded.
+
 (** The tie to the source. *)
 Theorem C04_source_shape :
   guarded gen_cfg = true /\
@@ -151,6 +215,7 @@ Theorem C04_source_shape :
    wait_arms gen_cfg = [ARecv "ctx.Done()"; ARecv "done"; ARecv "tr.serveDone"] /\
    fsend_arms gen_cfg = [ASend "tr.pendingFetch"; ARecv "tr.serveDone"] /\
    frecv_arms gen_cfg = [ARecv "ch"; ARecv "tr.serveDone"] /\
+   box_arms gen_cfg = [ARecv "ctx.Done()"; ARecv "b.closed"; ARecv "gone"; ARecv "b.ch"] /\
    calls_cap gen_cfg = 128 /\ fetch_cap gen_cfg = 5)%string /\
   skel_is gen_transport_skel "transport.asyncCall" frozen_asyncCall = true /\
   skel_is gen_transport_skel "transport.call" frozen_call = true /\
@@ -161,12 +226,15 @@ Theorem C04_source_shape :
   skel_is gen_transport_skel "JoinConn" frozen_JoinConn = true /\
   skel_is gen_transport_skel "Endpoint.Accept" frozen_Accept = true /\
   skel_is gen_transport_skel "Endpoint.Close" frozen_EndpointClose = true /\
-  skel_is gen_transport_skel "Endpoint.sendAccept" frozen_sendAccept = true.
+  skel_is gen_transport_skel "Endpoint.sendAccept" frozen_sendAccept = true /\
+  skel_is gen_transport_skel "connMailBox.receive" frozen_mailboxReceive = true /\
+  skel_is gen_transport_skel "endpointClient.Dial" frozen_clientDial = true.
 Proof.
   exact (conj gen_cfg_guarded (conj gen_cfg_arms (conj gen_asyncCall_frozen (conj gen_call_frozen
         (conj gen_shutdown_frozen (conj gen_hasShutdown_frozen (conj gen_tunnelClose_frozen
         (conj gen_clientClose_frozen (conj gen_JoinConn_frozen (conj gen_Accept_frozen
-        (conj gen_EndpointClose_frozen gen_sendAccept_frozen))))))))))).
+        (conj gen_EndpointClose_frozen (conj gen_sendAccept_frozen
+        (conj gen_mailboxReceive_frozen gen_clientDial_frozen))))))))))))).
 Qed.
 Print Assumptions C04_source_shape.
 
@@ -177,10 +245,10 @@ Print Assumptions C04_source_shape.
     closed. *)
 Example C04_ex_same_trace_now_returns :
   match exec gen_cfg init
-          [ANew 1 CtxNever false true; AReaderStop; AReadErrS; AFail; ACloseDone;
+          [ANew 1 CtxNever false true false; AReaderStop; AReadErrS; AFail; ACloseDone;
            ACheck 1; AEnq 1 2; AWait 1 2; AFront 1] with
   | Some s => serve s = SDone /\ queue s = [1] /\
-              getc 1 (callers s) = Some (mkCaller CtxNever CFront false true)
+              getc 1 (callers s) = Some (mkCaller CtxNever CFront false true false)
   | None => False
   end.
 Proof. vm_compute. repeat split. Qed.
@@ -189,13 +257,13 @@ Proof. vm_compute. repeat split. Qed.
     enqueued in the window is in the queue, enabled, and returns. *)
 Example C04_ex_loss_mid_call :
   match exec gen_cfg init
-          [ANew 1 CtxNever false false; ACheck 1; AEnq 1 2; ATake true;
-           ANew 2 CtxNever false false; ACheck 2;
+          [ANew 1 CtxNever false false false; ACheck 1; AEnq 1 2; ATake true;
+           ANew 2 CtxNever false false false; ACheck 2;
            AReaderStop; AReadErrS; AFail; AEnq 2 2; ACloseDone] with
   | Some s => serve s = SDone /\ pend s = [] /\ donec s = [1] /\ queue s = [2] /\
               caller_enabled gen_cfg s 1 = true /\ caller_enabled gen_cfg s 2 = true /\
               (exists s', step gen_cfg s (AWait 2 2) = Some s' /\
-                          getc 2 (callers s') = Some (mkCaller CtxNever CRet false false))
+                          getc 2 (callers s') = Some (mkCaller CtxNever CRet false false false))
   | None => False
   end.
 Proof. vm_compute. repeat split. eexists. split; reflexivity. Qed.
@@ -203,7 +271,7 @@ Proof. vm_compute. repeat split. eexists. split; reflexivity. Qed.
 (** A fair schedule exists: after the loss, closeAll's goroutine is simply
     scheduled for its four steps (and then for ever, to no effect). *)
 Definition ex_s0 : state :=
-  match exec gen_cfg init [ANew 1 CtxNever false true; AReaderStop; AReadErrS; AFail; ACloseDone] with
+  match exec gen_cfg init [ANew 1 CtxNever false true false; AReaderStop; AReadErrS; AFail; ACloseDone] with
   | Some s => s | None => init end.
 
 Definition ex_sched (n : nat) : action :=
@@ -212,7 +280,7 @@ Definition ex_sched (n : nat) : action :=
   end.
 
 Lemma ex_finished_stays k :
-  getc 1 (callers (run_n gen_cfg ex_sched ex_s0 (4 + k))) = Some (mkCaller CtxNever CFront false true).
+  getc 1 (callers (run_n gen_cfg ex_sched ex_s0 (4 + k))) = Some (mkCaller CtxNever CFront false true false).
 Proof.
   induction k as [|k IH]; [vm_compute; reflexivity|].
   replace (4 + S k)%nat with (S (4 + k)) by (now rewrite Nat.add_succ_r).
@@ -227,3 +295,34 @@ Proof.
   intros n. exists (4 + n)%nat. split; [apply Nat.le_add_l|]. left.
   unfold caller_finished. now rewrite ex_finished_stays.
 Qed.
+
+(** The side dial of the pinned counter-model, in the current configuration:
+    after the loss it is enabled through the [gone] arm and returns. *)
+Example C04_ex_side_dial_returns :
+  match exec gen_cfg init
+          [ANew 1 CtxNever false false true; ACheck 1; AEnq 1 2; ATake true;
+           AFrame 1 true; ARSend 0; AFetch; ARDone; AWait 1 1;
+           AReaderStop; AReadErrS; AFail; ACloseDone] with
+  | Some s => getc 1 (callers s) = Some (mkCaller CtxNever CBox false false true) /\
+              caller_enabled gen_cfg s 1 = true /\
+              (exists s', step gen_cfg s (ABox 1 2) = Some s' /\
+                          getc 1 (callers s') = Some (mkCaller CtxNever CRet false false true))
+  | None => False
+  end.
+Proof. vm_compute. repeat split. eexists. split; reflexivity. Qed.
+
+(** Endpoint side: Accept pending and a sendAccept with a full queue when the
+    server drops the endpoint; then two concurrent Close calls. *)
+Example C04_ex_endpoint_threads :
+  match eexec gen_ecfg (mkEState false false false 10 OFree [])
+          [ENew 1 KAccept; ENew 2 KSend; ETunnelGone; ENew 3 KClose; ENew 4 KClose; EOnce 3; EOnce 4] with
+  | Some s =>
+      eenabled gen_ecfg s 1 = true /\ eenabled gen_ecfg s 2 = false /\
+      eenabled gen_ecfg s 3 = true /\ eenabled gen_ecfg s 4 = false /\
+      match eexec gen_ecfg s [EArm 3 1; EFin 3; EWake 4; EArm 2 2; EArm 1 1] with
+      | Some s' => forallb (fun tx => efinished (snd tx)) (ethreads s') = true
+      | None => False
+      end
+  | None => False
+  end.
+Proof. vm_compute. repeat split. Qed.
